@@ -105,6 +105,7 @@ def gen_cases(rng, count):
                     v = vals[-1][:share] + v[share:]
                 vals.append(v)
             raw = ba_payload(vals)
+            c['p2'] = rng.choice([0, 0, 1, 2, 3])      # layout of the caller's byte arrays: separate blocks, or permuted views into one block
         else:
             w = 4 if kind == 8 else 8 if kind == 9 else rng.randrange(1, 40)
             c['p1'] = w if kind == 10 else 0
